@@ -2,18 +2,20 @@
 # usage: tools/confirm_mutant.sh <seed-id> <worktree> <property>
 # Confirms in the scratch worktree: demo fails with the change, suite passes (2 known failures),
 # demo passes without the change. On success copies the artefacts to /verif/seeded/<seed-id>/.
+# (no git stash: the stash is shared between worktrees)
 id="$1"; wt="$2"; prop="$3"
-out=/verif/seeded/$id; log=/tmp/mut/confirm_$id.log
+out=/verif/seeded/$id; mkdir -p /tmp/mut; log=/tmp/mut/confirm_$id.log
 export PYTHONPATH=$wt/src
 cd "$wt" || exit 2
 git diff -- src > /tmp/mut/$id.current.diff
 [ -s /tmp/mut/$id.current.diff ] || { echo "$id: no change applied in $wt"; exit 2; }
+find "$wt/_out" -name '*.py' ! -name demo.py -delete 2>/dev/null
 /venv/bin/python _out/demo.py > $log.demo_with 2>&1; rc_with=$?
-/venv/bin/python -m pytest -q -p no:cacheprovider --timeout=900 > $log.suite 2>&1
+/venv/bin/python -m pytest -q -p no:cacheprovider --timeout=900 --ignore=_out > $log.suite 2>&1
 suite=$(tail -1 $log.suite)
-git stash -q
+git checkout -q -- src
 /venv/bin/python _out/demo.py > $log.demo_without 2>&1; rc_without=$?
-git stash pop -q
+git apply /tmp/mut/$id.current.diff
 echo "$id: demo_with_change=$rc_with demo_without=$rc_without suite: $suite"
 case "$suite" in *"2 failed, 298 passed"*) ok_suite=1;; *) ok_suite=0;; esac
 if [ $rc_with -ne 0 ] && [ $rc_without -eq 0 ] && [ $ok_suite -eq 1 ]; then
@@ -30,7 +32,7 @@ if [ $rc_with -ne 0 ] && [ $rc_without -eq 0 ] && [ $ok_suite -eq 1 ]; then
   "suite_with_change": "$suite",
   "demo_exit_with_change": $rc_with,
   "demo_exit_without_change": $rc_without,
-  "commands": ["PYTHONPATH=<wt>/src /venv/bin/python _out/demo.py", "PYTHONPATH=<wt>/src /venv/bin/python -m pytest -q -p no:cacheprovider --timeout=900", "git stash; demo; git stash pop"]
+  "commands": ["PYTHONPATH=<wt>/src /venv/bin/python _out/demo.py", "PYTHONPATH=<wt>/src /venv/bin/python -m pytest -q -p no:cacheprovider --timeout=900 --ignore=_out", "git checkout -- src; demo; git apply <diff>"]
  },
  "needs_to_manifest": "see notes.md",
  "detected_by": "see DESIGN.md section 8.3"
